@@ -27,7 +27,7 @@ def one(path):
         shutil.rmtree(td, ignore_errors=True)
 paths = args or sorted(glob.glob('/verif/refactors/*/patch.diff'))
 bad = 0
-with cf.ThreadPoolExecutor(max_workers=4) as ex:
+with cf.ThreadPoolExecutor(max_workers=7) as ex:
     for path, res, err in ex.map(one, paths):
         if res is None:
             print(f'{path}: PATCH DOES NOT APPLY {err}'); bad += 1; continue
